@@ -15,7 +15,8 @@
    (b) "the obstacle shapes drawn are exactly the occupancies the model reports …"
          C19_shapes_iff_prescribed, C19_only_occupancies_drawn, C19_scenario_shapes, C19_nothing_iff_no_occupancy,
          C19_no_occupancy_at_begin_nothing_drawn (begin step in the gap before a late-starting trajectory prediction),
-         C19_witness_inverted_window (why `time_begin ≤ time_end` is assumed), C19_frames_independent, C19_show_after_clearing (several frames / operation histories on one renderer)
+         C19_witness_inverted_window (why `time_begin ≤ time_end` is assumed), C19_frames_independent, C19_show_after_clearing (several frames / operation histories on one renderer),
+         C19_video_frames_on_axes, C19_render_on_axes (what is on the AXES after every frame of the per-frame entry points)
    (c) "all lanelets (or exactly the selected ones) are drawn"        C19_id_filter (definitional)
    (d) "drawing … and rendering the figure completes without an exception"
          C19_total_full (statement about an implementation), C19_total_selection_partial, C19_total_net_partial,
@@ -426,6 +427,36 @@ theorem C19_show_after_clearing (pre : List ROp) (b : Buffers) (c sh : ROp) (ds 
     rw [stateAfter_append, stateAfter_draws, hclr, List.nil_append]
   rw [runOps_append]
   rcases hs with ⟨k, rfl⟩ | rfl <;> simp only [runOps, List.getLast?_concat, Option.map_some, hst]
+
+/-- What the FIGURE shows, frame by frame, through the public per-frame entry points (`create_video`'s sequence:
+    `ax.clear()`, `draw_list(...)`, `render_static()`, then per frame `remove_dynamic()`, `clear()`, `draw_list(...)`,
+    `render_dynamic()`), started on a renderer in ANY state (any earlier history of draws, renders, clears; anything on
+    the axes, anything registered): after the `render_dynamic()` of every frame the axes hold exactly ONE obstacle patch
+    collection, and its patches are those of this frame's own draws — nothing of an earlier time step stays on the
+    axes.  With `C19_scenario_shapes` every frame of a video shows the occupancies at its own `time_begin`.
+    (`render_dynamic` registers the collection it adds in `dynamic_artists`; `remove_dynamic` takes off what is
+    registered: a collection added without being registered would stay on the axes for ever.) -/
+theorem C19_video_frames_on_axes (init : List Frame) (frames : List (List Frame)) (s : Rend) :
+    (runAxes s (videoOps init frames)).map (fun ax => ax.map (·.2)) =
+      frames.map (fun ds => [ds.flatMap (fun fr => drawScenario fr.flags fr.obstacles)]) := by
+  have hreg : (([AOp.cla] ++ init.map AOp.draw ++ [AOp.renderStatic]).foldl stepA s).Reg := by
+    obtain ⟨d1, _, _, _⟩ := foldl_draws init s.cla
+    intro c hc
+    simp only [List.cons_append, List.nil_append, List.foldl_cons, List.foldl_append, List.foldl_nil, stepA] at hc
+    rw [d1] at hc
+    simp [Rend.cla] at hc
+  rw [videoOps, runAxes_append]
+  have h0 : runAxes s ([AOp.cla] ++ init.map AOp.draw ++ [AOp.renderStatic]) = [] := by
+    rw [runAxes_append, List.cons_append, List.nil_append]
+    simp only [runAxes, AOp.shows, Bool.false_eq_true, if_false, runAxes_draws, List.nil_append]
+  rw [h0, List.nil_append]
+  exact runAxes_videoFrames frames _ hreg
+
+/-- … and `render()` (which starts with `ax.cla()`) after any history leaves exactly the collections the model's
+    `render_dynamic` adds: with nothing registered (the state after every `clear`), the one of the buffers. -/
+theorem C19_render_on_axes (s : Rend) (k : Bool) (h : s.dyn = []) :
+    (runAxes s [.render k]).map (fun ax => ax.map (·.2)) = [[s.buf.patches]] := by
+  simp [runAxes, AOp.shows, stepA, Rend.clear, Rend.renderDynamic, Rend.cla, h]
 
 /-- … and the static artists survive a render iff it was asked to keep them.
     (definitional: documents `clearBuffers`, the model of `MPRenderer.clear`; carries no proof content) -/
